@@ -1,4 +1,4 @@
 //! bsvk - the k-mer side of the harness: one object-safe API over all 634 k-mer types.
 pub mod kdispatch;
 pub mod kmers;
-pub use kmers::{k_set, kmer_api, max_k, KmerApi, Sid, Store, SxK};
+pub use kmers::{k_set, kmer_api, max_k, reduced_k_set, KmerApi, Sid, Store, SxK};
